@@ -85,8 +85,16 @@ type Monitors struct {
 	guard map[*Obj]*MutexObj
 }
 
-func (m *Machine) noteRead(o *Obj)         {}
-func (m *Machine) noteWrite(o *Obj)        {}
+func (m *Machine) noteRead(o *Obj) {
+	if o != nil && o.externUninit && !o.written && !m.inInit {
+		panic(abortf("read of %s: the package's initialisers are not executed (intercept or bridge the function that uses it)", o.name))
+	}
+}
+func (m *Machine) noteWrite(o *Obj) {
+	if o != nil {
+		o.written = true
+	}
+}
 func (m *Machine) noteMapRead(mo *MapObj)  { m.guardCheck(mo, false) }
 func (m *Machine) noteMapWrite(mo *MapObj) { m.guardCheck(mo, true) }
 func (m *Machine) bigWrite(p PtrVal)       {}
